@@ -138,18 +138,48 @@ class C04(Prop):
     packages = {"cc": "internal/app/connectconformance"}
     kinds = {"c04.results": "cc", "c04.flow": "cc", "c04.run": "cc"}
     rule = ("c04.results: EVERY assignment of {pass, assertion failure, client-reported error, setup error, could-not-run, never "
-            "answered} x {unmarked, known-failing, known-flaky} x {feedback, none} to 1 and 2 cases (ordered) and to every multiset of 3 "
-            "cases (thorough: every ordered triple), each realised by a randomly chosen way the runner has of producing that fate "
+            "answered} x {unmarked, known-failing, known-flaky} x {feedback, none} to 1, 2 and 3 cases (ordered: 36 + 1,296 + 46,656 "
+            "tables; thorough: the triples twice), each realised by a randomly chosen way the runner has of producing that fate "
             "(assert / setOutcome / failed / failedToStart / failRemaining, plain and %w-wrapped couldNotRunError) in a random interleaving, "
             "plus random operation histories over up to 6 names (overwrites, failRemaining after/before results, duplicates, names in "
             "both marking lists, totals smaller/larger than the outcome map); driven through the real testResults and report() twice; "
-            "compared: return value, the five printed numbers, FAILED names and INFO names in print order")
-    trusted_base = ("Coq 8.16.1 kernel", "extraction (ExtrOcamlBasic only) + ocaml/driver.ml",
-                    "vlib generators/comparator, Go overlay harness (harness/C04)")
-    assumptions = ()
-    level_text = ""
-    level_note = ""
-    technique = "Coq proof over all operation histories (induction over the history and the outcome map); differential model-vs-Go correspondence"
+            "compared: return value, the five printed numbers, FAILED names and INFO names in print order. "
+            "c04.flow: runs as batches through the real runClient/clientProcessRunner, runTestCasesForServer and report() with client and "
+            "servers as in-process processes (runInProcess): every reply assignment {pass, wrong, error result, neither} to <= 3 cases x "
+            "every exit point of the client (incl. reading a request and ending silently) x exit result, random markings, plus random "
+            "runs of 1-3 batches with servers that fail to start; the client's exit point is forced through the 'Sending request' log hook. "
+            "c04.run: the real Run() with flags, config/suite files, --known-failing/--known-flaky patterns and this test binary re-executed "
+            "as client and server OS processes (1-4 server instances, servers failing to start, client exit status 0/1); compared: "
+            "Run's ok, exit status, numbers and names. non-trivial = verdict false or a failed / could-not-run / expected count > 0")
+    trusted_base = ("Coq 8.16.1 kernel (vm_compute only in Examples)", "extraction (ExtrOcamlBasic only) + ocaml/driver.ml",
+                    "vlib generators/comparator, Go overlay harness (harness/C04): parsing of the printed lines, the copy of run()'s batch "
+                    "loop used by c04.flow",
+                    "modelled not verified: os/exec, signals and the 3 s / 5 s / 20 s timers of process.go / client_runner.go; "
+                    "cmd/connectconformance main's os.Exit(1) on !ok (exit_status is the model of it; c04.run observes Run's result)")
+    assumptions = ("the selected permutations have distinct names, totalTestCount is their number and nothing is reported for a name "
+                   "outside them (selection; exactly-once scheduling is C05's subject)",
+                   "no name is both known-failing and known-flaky for the theorems that mention markings (run() rejects such "
+                   "configurations: C08 conflict_rejected); setup_always_bad and feedback_fails need no such hypothesis",
+                   "report() is applied once, after the history, as Run does (report_idempotent covers calling it again)",
+                   "peer feedback for a case counts as evidence that the case ran: feedback for a case without any outcome makes it a "
+                   "failed (not a could-not-run) case; Run never reaches that state (every batch ends by giving each of its cases an outcome)",
+                   "c04.flow/c04.run: the client ends inside the last batch only; what isRunning() reports after a clean exit "
+                   "(client_runner.go whenDone stores terminated=false) is C10's finding and is not relied upon")
+    level_text = ("Machine-checked proof (Coq) over ALL operation histories and any number of cases that report()'s return value, Run's "
+                  "verdict and the exit status are true exactly when every selected case has an outcome and met its expectation "
+                  "(truth table of outcome kind x marking x feedback), that set-up / could-not-run / never-answered cases always fail the "
+                  "run whatever their marking, that FAILED/INFO lines name exactly the failed / expected-failure cases and that the printed "
+                  "totals count every selected case exactly once; plus the same verdict theorem for runs given as batches with servers "
+                  "that do not start and a client that ends early. The model is tied to the Go code on every check by a "
+                  "bounded-exhaustive plus random differential run at three levels (testResults, batch flow in-process, real Run() with "
+                  "child processes).")
+    level_note = ("Proved about the model; the model-to-code correspondence is sampled (exhaustive truth table for <= 3 cases, random beyond), "
+                  "not proved. The batch-level model covers a sequential scripted client (one exit point, forced schedule); free-running "
+                  "timing races between a dying OS process and the send loop (ErrClosedPipe vs errClosed, WaitDelay, 20 s read timeout) are "
+                  "not modelled - every such outcome makes the real run fail for one reason or another, but that is argued, not proved. "
+                  "Could-not-run cases are counted, not named individually, in the output (failing_named states exactly that).")
+    technique = ("Coq proof over all operation histories (rev-induction over the history, induction over the outcome/sideband maps, "
+                 "permutation counting); differential model-vs-Go correspondence at three levels")
 
     def nontrivial(self, case, res):
         try:
@@ -168,15 +198,18 @@ class C04(Prop):
             yield table_case(rng, [a])
         for a in itertools.product(cells, repeat=2):
             yield table_case(rng, list(a))
-        triples = itertools.product(cells, repeat=3) if tier != "quick" else itertools.combinations_with_replacement(cells, 3)
-        for a in triples:
+        for a in itertools.product(cells, repeat=3):
             yield table_case(rng, list(a))
+        if tier != "quick":
+            # a second, independently randomised realisation of every triple
+            for a in itertools.product(cells, repeat=3):
+                yield table_case(rng, list(a))
         for _ in range(2500 if tier == "quick" else 60000):
             yield random_history(rng)
         yield from flow_table(rng)
         for _ in range(400 if tier == "quick" else 6000):
             yield flow_case(rng, "c04.flow")
-        for _ in range(40 if tier == "quick" else 600):
+        for _ in range(80 if tier == "quick" else 600):
             yield flow_case(rng, "c04.run", nb=rng.randint(1, 4), allow_exit=False)
 
 
